@@ -325,7 +325,7 @@ func jobsFor(prop, tier string) []Job {
 		// large containers (a scratch structure shared by readers may exist only above some size: after seeded
 		// change C18-14, which needs a heap of >= 192 elements): one fill history, the reader passes at sizes
 		// 64, 128, 192, .. and at the bound (c18.go largeReadersJob)
-		ln := pick(200, 300)
+		ln := pick(260, 520) // past 255: the heap level 127..254 is full, list thresholds at 256 (after seeded changes C18-15/16)
 		for _, c := range []string{"binaryheap", "priorityqueue", "arraylist", "singlylinkedlist", "doublylinkedlist", "arraystack", "linkedliststack", "arrayqueue", "linkedlistqueue", "linkedhashset", "linkedhashmap", "hashset"} {
 			add("largereaders", "pure."+c+".large", 30, map[string]string{"c": c}, map[string]int{"n": ln, "deep": 1, "every": 64})
 			add("largereaders", "race."+c+".large", 40, map[string]string{"c": c, "binary": "race"}, map[string]int{"n": ln, "deep": 1, "every": 64, "gomaxprocs": 4, "reps": 1})
@@ -595,9 +595,9 @@ func rewoundJobs(group string, q bool, add func(kind, id string, w int, s map[st
 
 // largeJobs: the nested enumeration `check` of a property at sizes 64, 128, 192, .. of large containers (c18.go largeStatesJob)
 func largeJobs(check string, q bool, cs []string, add func(kind, id string, w int, s map[string]string, p map[string]int)) {
-	ln := 200
+	ln := 260
 	if !q {
-		ln = 300
+		ln = 520
 	}
 	for _, c := range cs {
 		p := map[string]int{"n": ln, "deep": 1, "every": 64}
